@@ -21,9 +21,10 @@ from . import ddmin as ddminmod
 PY = sys.executable
 NWORKERS = int(os.environ.get('VERIF_WORKERS', '16'))
 FINDINGS_FILE = os.path.join(VERIF_DIR, 'known_findings.json')
-REPLAY_DIR = os.path.join(VERIF_DIR, 'replays')
+_OUT = os.environ.get('VERIF_OUT_DIR')   # sensitivity self-test only
+REPLAY_DIR = os.path.join(_OUT or VERIF_DIR, 'replays')
 REGRESS_DIR = os.path.join(VERIF_DIR, 'regress')
-EVIDENCE_DIR = os.path.join(VERIF_DIR, 'evidence')
+EVIDENCE_DIR = os.path.join(_OUT or VERIF_DIR, 'evidence')
 
 
 def hashseed_for(base_seed, worker):
